@@ -210,28 +210,28 @@ Definition label (e : example) : option Z :=
   end.
 
 (* dyn_slot_evaluator::operator() / binary_evaluator::operator():
-   for (auto &example : dat) if (tag(example).label != label(example)) { ++err; ++example.difficulty; } *)
+   for (auto &example : dat) if (tag(example).label != label(example)) { ++err; ++example.difficulty; }
+   Result: the dataset as the loop leaves it, and the error counter -- None
+   when label() threw std::bad_variant_access on an example whose output cell
+   is not an integer: the examples before it keep their increments, that
+   example and the following ones are untouched. *)
 Fixpoint count_loop (tag : list pout -> Z * f64) (l : list example) (err : f64)
-  : option (list example * f64) :=
+  : list example * option f64 :=
   match l with
-  | [] => Some ([], err)
+  | [] => ([], Some err)
   | e :: r =>
       match label e with
-      | None => None
+      | None => (e :: r, None)
       | Some lab =>
           let wrong := negb (Z.eqb (fst (tag (ex_in e))) lab) in
-          match count_loop tag r (if wrong then F64.add err one else err) with
-          | None => None
-          | Some (r', err') => Some ((if wrong then bump e else e) :: r', err')
-          end
+          let (r', res) := count_loop tag r (if wrong then F64.add err one else err) in
+          ((if wrong then bump e else e) :: r', res)
       end
   end.
 
-Definition count_eval (tag : list pout -> Z * f64) (d : list example) : option (list example * fitness) :=
-  match count_loop tag d F64.zero with
-  | None => None
-  | Some (d', err) => Some (d', [F64.neg err])
-  end.
+Definition count_eval (tag : list pout -> Z * f64) (d : list example) : list example * option fitness :=
+  let (d', res) := count_loop tag d F64.zero in
+  (d', match res with Some err => Some [F64.neg err] | None => None end).
 
 Definition dyn_slot_eval := count_eval.
 Definition binary_eval (out : list pout -> pout) := count_eval (binary_tag out).
@@ -240,30 +240,26 @@ Definition binary_eval (out : list pout -> pout) := count_eval (binary_tag out).
 Definition gaussian_scale (classes : Z) : f64 := F64.of_Z ((classes - 1) mod 18446744073709551616).
 
 Fixpoint gaussian_loop (tag : list pout -> Z * f64) (scale : f64) (l : list example) (d : f64)
-  : option (list example * f64) :=
+  : list example * option f64 :=
   match l with
-  | [] => Some ([], d)
+  | [] => ([], Some d)
   | e :: r =>
       match label e with
-      | None => None
+      | None => (e :: r, None)
       | Some lab =>
           let res := tag (ex_in e) in
           let right := Z.eqb (fst res) lab in
           let d1 := if right then F64.add d (F64.div (F64.sub (snd res) one) scale)
                     else F64.sub d one in
-          match gaussian_loop tag scale r d1 with
-          | None => None
-          | Some (r', d') => Some ((if right then e else bump e) :: r', d')
-          end
+          let (r', out) := gaussian_loop tag scale r d1 in
+          ((if right then e else bump e) :: r', out)
       end
   end.
 
 Definition gaussian_eval (tag : list pout -> Z * f64) (classes : Z) (d : list example)
-  : option (list example * fitness) :=
-  match gaussian_loop tag (gaussian_scale classes) d F64.zero with
-  | None => None
-  | Some (d', v) => Some (d', [v])
-  end.
+  : list example * option fitness :=
+  let (d', res) := gaussian_loop tag (gaussian_scale classes) d F64.zero in
+  (d', match res with Some v => Some [v] | None => None end).
 
 (* ---- ga_evaluator / constrained_evaluator ------------------------------ *)
 Definition ga_eval (f_v : f64) : fitness := if F64.is_finite f_v then [f_v] else [].
@@ -274,5 +270,14 @@ Definition constrained_eval (pen : f64) (base : fitness) : fitness := [F64.neg p
         implementation's outputs) --------------------------------------- *)
 Definition wrong_by (wrong : example -> bool) (l : list example) : list example :=
   map (fun e => if wrong e then bump e else e) l.
+(* what a classification loop leaves behind, exception included *)
+Fixpoint frame_cls (wrong : example -> bool) (l : list example) : list example :=
+  match l with
+  | [] => []
+  | e :: r => match label e with
+              | None => e :: r
+              | Some _ => (if wrong e then bump e else e) :: frame_cls wrong r
+              end
+  end.
 Definition mismatches (wrong : example -> bool) (l : list example) : Z :=
   Z.of_nat (length (filter wrong l)).
